@@ -36,6 +36,13 @@ def ev(e, env, depth=0):
         if e[1] == "-":
             return -r(e[2])
         raise NoEval("un")
+    if t == "mcall" and not e[4]:
+        v = r(e[1])
+        if e[2] == "is_power_of_two" and isinstance(v, int):
+            return v > 0 and (v & (v - 1)) == 0
+        if e[2] in ("clone", "into", "to_owned"):
+            return v
+        raise NoEval(e[2])
     if t == "bin":
         op = e[1]
         if op == "&&":
@@ -45,7 +52,8 @@ def ev(e, env, depth=0):
         a, b = r(e[2]), r(e[3])
         try:
             return {"!=": lambda: a != b, "==": lambda: a == b, "<": lambda: a < b, ">": lambda: a > b, "<=": lambda: a <= b, ">=": lambda: a >= b,
-                    "+": lambda: a + b, "*": lambda: a * b, "-": lambda: a - b}[op]()
-        except (KeyError, TypeError):
+                    "+": lambda: a + b, "*": lambda: a * b, "-": lambda: a - b, "%": lambda: a % b, "&": lambda: a & b, "|": lambda: a | b,
+                    "/": lambda: a // b, "<<": lambda: a << b, ">>": lambda: a >> b}[op]()
+        except (KeyError, TypeError, ZeroDivisionError):
             raise NoEval(op)
     raise NoEval(t)
